@@ -16,7 +16,8 @@ def sh(cmd, **kw):
 def main() -> int:
     seed_dir = os.path.abspath(sys.argv[1])
     name = os.path.basename(seed_dir.rstrip("/"))
-    meta = json.load(open(os.path.join(seed_dir, "meta.json")))
+    mf = os.path.join(seed_dir, "agent_meta.json")
+    meta = json.load(open(mf if os.path.exists(mf) else os.path.join(seed_dir, "meta.json")))
     checks = sys.argv[2:] or [meta["property"]]
     tier = os.environ.get("SELFTEST_TIER", "quick")
     scratch = tempfile.mkdtemp(prefix=f"st-{name}-", dir="/tmp")
